@@ -194,14 +194,6 @@ theorem scan_shape (c : Cfg) (buf : List Op) : ∀ (a : Acc) (free : Option Nat)
 theorem OpenBatchOK.raised {c : Cfg} {p : Batch} (h : OpenBatchOK c p) : RaisedOK c p :=
   ⟨h.1, fun o ho => (h.2.1 o ho).1, Or.inr ⟨fun o ho => (h.2.1 o ho).2, not_isFull_le c p.1 _ h.2.2⟩⟩
 
-theorem finishOrder_mem {order : List Nat} {openB : List Batch} {p : Batch}
-    (h : p ∈ finishOrder order openB) : p ∈ openB := by
-  simp only [finishOrder, List.mem_filterMap] at h
-  obtain ⟨w, _, hw⟩ := h
-  cases hl : lookupB w openB with
-  | none => simp [hl] at hw
-  | some b => simp [hl] at hw; subst hw; exact lookupB_mem hl
-
 /-! ### slots -/
 
 def slotsTaken (free free' : Option Nat) : Nat :=
